@@ -265,6 +265,7 @@ Lemma scallf_eq n : PS n -> forall c avs g, scallf cm funs clos n c avs g = ical
 Proof.
   intros IH c avs g. unfold scallf, icallf. destruct c as [f|id oid cap].
   - destruct (find_fun funs f) as [d|] eqn:F; [|reflexivity]. destruct (Hfun _ _ F) as [Hp Hc].
+    destruct (enough_args (fparams d) avs); [|reflexivity].
     assert (HE : E (fun_vars d) (bind_params (fparams d) avs [], []) (sbind_params (fun_vars d) (fparams d) avs (sfresh (fun_vars d)), [])).
     { split; [reflexivity|]. apply venv_bind_params; [apply venv_fresh|exact Hp]. }
     pose proof (IH (fun_vars d) f (fbody d) _ _ g HE Hc) as R.
@@ -272,6 +273,7 @@ Proof.
       destruct (sexec cm funs clos n (fun_vars d) f (fbody d) (sbind_params (fun_vars d) (fparams d) avs (sfresh (fun_vars d)), []) g) as [|cs fs gs];
       simpl in R; try contradiction; [reflexivity|]. destruct R as (<- & <- & _). reflexivity.
   - destruct (nth_error clos id) as [cd|] eqn:F; [|reflexivity]. destruct (Hclo _ _ F) as [Hp Hc].
+    destruct (enough_args (cparams cd) avs); [|reflexivity].
     assert (HE : E (clo_vars cd) (bind_captured cap (bind_params (cparams cd) avs []), [])
                    (sbind_captured (clo_vars cd) cap (sbind_params (clo_vars cd) (cparams cd) avs (sfresh (clo_vars cd))), [])).
     { split; [reflexivity|]. apply venv_bind_captured. apply venv_bind_params; [apply venv_fresh|exact Hp]. }
